@@ -1,9 +1,11 @@
 """C03 — boolean conditions (&&, ||, !, parentheses) guard exactly when true.
 
 Proof step (Props/C03.v) + correspondence (Model/Cond.v `parse_condition` vs the real compiler, exact
-text of precommands + guarded line, in if / else-if / while / do-while / for positions) + search
-(the real emitted text is run in mcvm from every relevant truth assignment, incl. unset scores and
-stale `__logic__` flags, and compared with the source-level meaning of the formula)."""
+text of precommands + guarded line, in if / else-if / while / do-while / for / `if … expand` (every command
+of the batch) / async while / async for / `$if` positions; Model/CondExpand.v `expand_code` vs the text of
+whole expand batches) + search (the real emitted text is run in mcvm from every relevant truth assignment,
+incl. unset scores and stale `__logic__` flags, and compared with the source-level meaning of the formula;
+expand batches whose commands evaluate conditions of their own run as whole packs against the source meaning)."""
 from __future__ import annotations
 
 import itertools
@@ -15,7 +17,10 @@ from lib import (Check, COMMON_TRUSTED, INT_MAX, INT_MIN, REPO, VERIF, compile_b
 from c03_gen import (CERTS, POSITIONS, cert_text, gen_cases, mk_case, formula_text, tokens_text, tokens_of, wrap_source,
                      program_for, coq_formula, coq_tokens, names_term, atoms_of, connectives, depth,
                      shape_key, edge_atoms, strict_ne_score_atoms)
-from c03_sem import extract_segments, semantic_failure, states_for, eval_formula
+from c03_sem import extract_segments, semantic_failure, states_for, eval_formula, macro_line_failure
+from c03_gen import MACRO_POSITIONS, macro_cases
+from c03_gen import expand_items, expand_text_term
+import c04_gen as G
 
 PROP = "C03"
 
@@ -75,8 +80,14 @@ def real_of(case, res):
     if not res["ok"]:
         case["refusal"] = dict(exc=res["exc"], jmc=res["jmc"], msg=res["msg"][:300])
         return [], "", "<refused>"
+    case.pop("macro_fail", None)
     try:
-        segs, tail = extract_segments(case["position"], functions_of(res["files"]), CERTS[case["cert"]])
+        fns = functions_of(res["files"])
+        if case["position"] in MACRO_POSITIONS:
+            mf = macro_line_failure(fns["f"].rstrip("\n"))
+            if mf:
+                case["macro_fail"] = mf
+        segs, tail = extract_segments(case["position"], fns, CERTS[case["cert"]])
     except Exception as e:  # the expected shape of the surrounding statement is not there
         return [], "", f"<unexpected shape of the {case['position']} statement: {e}>"
     real = segs[0]
@@ -85,6 +96,28 @@ def real_of(case, res):
             real = "<evaluation sites differ>\n" + "\n----\n".join(segs)
             break
     return segs, tail, real
+
+
+def macro_if_supported() -> bool:
+    """`$if` is covered on trees that carry fixes/C03-macro-if-lines.patch (recognised by the helper it introduces).  Before it, `$if`
+    with a condition that needs helper lines put the `$` on the first helper line (a macro line without variable: the function does not
+    load) and left the lines that mention `$(x)` plain; `$if (...) expand` never emitted a macro line."""
+    try:
+        return "def _macro_lines(" in (REPO / "src/jmc/compile/lexer.py").read_text()
+    except OSError:
+        return False
+
+
+def case_failure(c, states, stale_modes=(False, True)):
+    """first failure of a compiled case: the macro-line rule of a `$if`, then every evaluation site run in mcvm"""
+    if c.get("macro_fail"):
+        return c["macro_fail"]
+    cert = CERTS[c["cert"]]
+    for seg in c["segments"]:
+        f = semantic_failure(c["formula"], cert, seg, states, stale_modes=stale_modes)
+        if f:
+            return f
+    return None
 
 
 def smaller(f):
@@ -128,16 +161,88 @@ def minimise(case, fail, rng, rounds=8, width=40):
             if not segs:
                 continue
             states = states_for(c["formula"], CERTS[c["cert"]], rng, 300)
-            for seg in segs:
-                f = semantic_failure(c["formula"], CERTS[c["cert"]], seg, states)
-                if f and f["kind"] == fail["kind"]:
-                    if found is None or len(c["text"]) < len(found[0]["text"]):
-                        found = (c, f)
-                    break
+            f = case_failure(c, states)
+            if f and f["kind"] == fail["kind"]:
+                if found is None or len(c["text"]) < len(found[0]["text"]):
+                    found = (c, f)
         if found is None:
             break
         best, best_fail = found
     return best, best_fail
+
+
+def check_expand_batches(ck, tier):
+    """`if (...) expand { c1; c2; ... }`: (a) text of f and of every expand/k function == Model.CondExpand (Run.C03.xcase_ok)
+    for the batches made of one-line commands and nested lone ifs; (b) every pack: the emitted functions run in mcvm from
+    every 0/1 assignment (+ stale flags) against the source meaning (each command guarded by its own fresh evaluation)."""
+    items = expand_items(ck.rng, tier)
+    jobs = [dict(src=G.jmc_src(it), cert=cert_text(CERTS[it["cert"]])) for it in items]
+    results = compile_batch(jobs, chunk=100)
+    terms, idx = [], []
+    for i, (it, r) in enumerate(zip(items, results)):
+        t = expand_text_term(it, CERTS[it["cert"]], G.real_functions(r) if r["ok"] else None)
+        if t:
+            terms.append(t)
+            idx.append(i)
+    bad, errs = eval_cases(PROP, COQ_HEADER, terms, per_file=150, list_name="xcases", checker="xmismatches", prefix="xcases")
+    for e in errs:
+        ck.violation(dict(kind="correspondence-file-failed", log=e[-3000:]), no_input=True)
+    mism = {idx[j] for j in bad}
+    term_of = dict(zip(idx, terms))
+
+    n_runs = 0
+    sem_fail = {}
+    values = (0, 1) if tier == "quick" else (0, 1, None)
+    for i, (it, r) in enumerate(zip(items, results)):
+        if not r["ok"]:
+            sem_fail[i] = dict(kind="refused", exc=r["exc"], msg=r["msg"][:300])
+            continue
+        cert = CERTS[it["cert"]]
+        states = G.states_for(it["prog"], cert, values=values, cap=it["cap"] if i not in mism else 256, rng=ck.rng,
+                              domains=it["values"], more=it["more"])
+        stale = {(f"__logic__{k}", cert["VAR"]): 1 for k in range(3)}
+        stale[("__if_else__", cert["VAR"])] = 1
+        states = states + [{**st, **stale} for st in states[::2]]
+        f, nr, _sk, _mi = G.semantic_failure(it["prog"], G.real_functions(r), cert, states, funcs=it["more"])
+        n_runs += nr
+        if f:
+            sem_fail[i] = f
+    seen = set()
+    for i, f in sem_fail.items():
+        it = items[i]
+        sig = (f["kind"], it["stream"], it["outer"] if len(seen) < 2 else "")
+        if sig in seen or len(seen) >= 4:
+            continue
+        seen.add(sig)
+        cert = CERTS[it["cert"]]
+        small, sf, smore = (it["prog"], f, it["more"]) if f["kind"] == "refused" else \
+            G.minimise(it["prog"], cert, f, more=it["more"], order=it["order"])
+        ck.violation(dict(kind="semantic-failure", expand_batch=True, what="a command of an `if (...) expand {...}` batch does not run exactly "
+                          "when the condition holds at the moment the command is reached", source=G.jmc_src(dict(it, prog=small, more=smore)),
+                          jmc_txt=cert, program=small, more=smore or None, failure=sf, original_source=G.jmc_src(it), stream=it["stream"],
+                          n_failing_cases=len(sem_fail), text_differs_from_model=(i in mism) if i in term_of else None,
+                          note="the functions emitted by the real compiler, run in mcvm from `init`, against the source meaning: every command "
+                               "of the batch is guarded by its own evaluation of the condition"))
+    silent = sorted(i for i in mism if i not in sem_fail)
+    if silent:
+        show = silent[:3]
+        try:
+            model_out = eval_strings(PROP, COQ_HEADER, [f"Run.C03.xmodel_text ({term_of[i]})" for i in show], name="xshow.v")
+        except Exception as e:  # noqa
+            model_out = [str(e)] * len(show)
+        ck.violation(dict(kind="correspondence-differs",
+                          theorem="C03_expand_guard_iff_partial no longer speaks about the code (Model/CondExpand.v expand_code differs from the "
+                                  "is_expand branch of Lexer.parse_if_else)",
+                          cases=[dict(source=G.jmc_src(items[i]), real=G.real_functions(results[i]) if results[i]["ok"] else results[i], model=m)
+                                 for i, m in zip(show, model_out)],
+                          n_differing=len(silent)), no_input=True)
+    streams = {}
+    for it in items:
+        k = it["stream"] + ":" + (it["kinds"][0] if it["kinds"] else it["outer"])
+        streams[k] = streams.get(k, 0) + 1
+    return dict(programs=len(items), text_cases=len(terms), text_mismatches=len(mism), semantic_runs=n_runs,
+                semantic_failures=len(sem_fail), streams=streams,
+                distinct=len({G.jmc_src(it) + str(it["cert"]) for it in items}))
 
 
 def main(tier: str) -> int:
@@ -145,15 +250,26 @@ def main(tier: str) -> int:
     ck.cov["trusted_base"] = COMMON_TRUSTED + [
         "Model/Cond.v is a hand-written port of condition.py (custom_condition score branch, condition_to_ast over an abstract token list, "
         "negate_ast, ast_to_commands, ast_to_strings with the repaired numbering, parse_condition); tied to the source by exact text equality "
-        "of precommands + guarded line on the generated conditions below, in if / else-if / while / do-while / for positions",
+        "of precommands + guarded line on the generated conditions below, in if / else-if / while / do-while / for / expand / async while / "
+        "async for positions (and `$if` forms on trees carrying fixes/C03-macro-if-lines.patch: text modulo the leading `$`, plus the rule "
+        "that a line is a macro line iff it mentions `$(...)`)",
+        "Model/CondExpand.v is a hand-written port of the is_expand branch of Lexer.parse_if_else (every command of the batch gets the helper "
+        "block and its own guarded line; `execute` merged at the junction; several-line commands stored as expand/k); tied to the source by exact "
+        "text equality of f and of every expand/k on batches of one-line commands and nested lone ifs (Run.C03.xcase_ok); batches with chains, loops, "
+        "nested expand and calls are compared semantically only (c04_gen.py interpreter: each command guarded by a fresh evaluation)",
         "c03_gen.py prints a token list to JMC source text and resolves `$v` / `obj:sel` to (holder, objective); an atom's own tokens are abstracted to one TAtom",
-        "outside the model: bool functions, nbt / `execute if` conditions, vanilla macros, number macros in `matches`, is_expand (`expand`) use of conditions; "
+        "outside the model: bool functions, nbt / `execute if` conditions, number macros in `matches`, what Minecraft substitutes for `$(x)` in a `$if`; "
         "how if/else chains and loops use the (precommands, conditions) pair is C04/C05",
         "mcvm.py (untrusted Python VM) is used only to search for failing inputs and to confirm known findings",
     ]
     ck.proof(extra_targets=["Run/C03.vo"])
 
     cases = gen_cases(ck.rng, tier)
+    macro_if = macro_if_supported()
+    if macro_if:
+        cases += macro_cases(ck.rng, tier == "quick")
+    ck.cov["macro_if"] = "covered (positions mif, mif1, mif_expand)" if macro_if else \
+        "not covered: the tree lacks fixes/C03-macro-if-lines.patch (`$if` with helper lines emits a macro line without variable)"
     for c in cases:
         c["src"] = program_for(c)
     results = compile_cases(cases)
@@ -177,12 +293,10 @@ def main(tier: str) -> int:
             continue
         cert = CERTS[c["cert"]]
         states = states_for(c["formula"], cert, ck.rng, max_states if i not in mism else 600)
-        for seg in c["segments"]:
-            n_runs += len(states) * 2
-            f = semantic_failure(c["formula"], cert, seg, states)
-            if f:
-                sem_fail[i] = f
-                break
+        n_runs += len(states) * 2 * len(c["segments"])
+        f = case_failure(c, states)
+        if f:
+            sem_fail[i] = f
 
     reported = set()
     for i, f in sem_fail.items():
@@ -217,6 +331,10 @@ def main(tier: str) -> int:
                                  for i, m in zip(show, model_out)],
                           n_differing=len(silent)), no_input=True)
 
+    # ---- `if (...) expand { batch }` (round 3)
+    xst = check_expand_batches(ck, tier)
+    ck.cov["expand_batches"] = xst
+
     # ---- evidence
     hist_pos, hist_conn, hist_depth, hist_atoms = {}, {}, {}, {}
     n_refused = n_crash = 0
@@ -238,7 +356,10 @@ def main(tier: str) -> int:
         evaluations=len(cases),
         distinct_nontrivial=len({(c["text"], c["position"], c["cert"]) for c in cases if "__logic__" in c["real"]}),
         rule="a case is one condition (token list) in one syntactic position under one jmc.txt; model text (precommands + guarded line) must equal the real text at "
-             "every evaluation site; distinct_nontrivial counts distinct (condition, position, names) whose lowering allocates at least one __logic__ flag",
+             "every evaluation site (both sites of while/for, every command of an expand batch, the test function of an async loop); distinct_nontrivial counts "
+             "distinct (condition, position, names) whose lowering allocates at least one __logic__ flag.  expand_batches: packs whose f holds `if (c) expand {...}` "
+             "with >= 2 commands, a non-last one evaluating another flagged condition / calling a function that does / changing what c reads: text of f and expand/k "
+             "== Model.CondExpand where the batch is one-line commands and nested lone ifs, all run in mcvm against the source meaning",
         streams=dict(exhaustive="every formula shape with <= 3 connectives (&&/|| arity 2..3, !) with atoms of rotating kinds over distinct scores",
                      random="random formulas up to depth 5, arity up to 4",
                      adversarial="nested ||, !(&&) under ||, double negation, boundary literals, operator spellings, redundant brackets, refused shapes"),
@@ -253,6 +374,8 @@ def main(tier: str) -> int:
 
 def replay(path: str) -> int:
     r = json.loads(open(path).read())
+    if r.get("expand_batch"):
+        return G.replay_file(path, PROP)
     if r.get("kind") != "semantic-failure":
         print(json.dumps(r, indent=1)[:6000])
         print("this replay file names a broken proof obligation / correspondence, not a failing input; re-run ./check C03")
@@ -264,7 +387,15 @@ def replay(path: str) -> int:
     if not res["ok"]:
         print("expected: compiles; actual:", res["exc"], res["msg"][:500])
         return 1
-    segs, _tail = extract_segments(r["position"], functions_of(res["files"]), cert)
+    fns = functions_of(res["files"])
+    if r["position"] in MACRO_POSITIONS:
+        mf = macro_line_failure(fns["f"].rstrip("\n"))
+        print("emitted:\n" + fns["f"])
+        print("expected: a line starts with `$` exactly when it mentions a macro variable `$(...)`")
+        print("actual:", "as expected" if mf is None else json.dumps(mf))
+        if mf:
+            return 1
+    segs, _tail = extract_segments(r["position"], fns, cert)
     init = r["failure"]["init"]
     states = [({tuple(k.split(" ", 1)): v for k, v in init["scores"].items()})]
     bad = 0
